@@ -25,6 +25,8 @@ type Case struct {
 	DropV bool `json:"drop_v,omitempty"`
 	// TopDown: grouped AVPs are created empty, attached, and filled afterwards.
 	TopDown bool `json:"top_down,omitempty"`
+	// Literal: AVP struct literals instead of the constructors.
+	Literal bool `json:"literal,omitempty"`
 }
 
 const sigAmb = "addr-family-ambiguous"
@@ -61,6 +63,7 @@ func genCase(t *rapid.T) Case {
 	c.Msg = cat.Message(t, gen.TreeOpts{MaxTop: 12, MaxDepth: rapid.IntRange(1, depth).Draw(t, "max-depth")})
 	c.DropV = rapid.Bool().Draw(t, "drop-v")
 	c.TopDown = rapid.Bool().Draw(t, "top-down")
+	c.Literal = rapid.IntRange(0, 3).Draw(t, "literal") == 0
 	return c
 }
 
@@ -106,7 +109,7 @@ func build(c Case) (*diam.Message, error) {
 				return nil, err
 			}
 		default:
-			m.AddAVP(a.Build(gen.BuildOpts{DropV: c.DropV, TopDown: c.TopDown}))
+			m.AddAVP(a.Build(gen.BuildOpts{DropV: c.DropV, TopDown: c.TopDown, Literal: c.Literal}))
 		}
 	}
 	return m, nil
